@@ -22,9 +22,10 @@ class QuaBpmList(BpmList[QuaBpm], QuaTimedList[QuaBpm]):
         return QuaBpmList(df)
 
     def to_yaml(self):
+        # Only the fields of the format: a frame may carry user columns
+        df = self.df.loc[:, [c for c in self.df.columns if c in ("offset", "bpm")]]
         return (
-            self.df.astype(dict(offset=int, bpm=float))
+            df.astype(dict(offset=int, bpm=float))
             .rename(dict(offset="StartTime", bpm="Bpm"), axis=1)
-            .drop("metronome", axis=1)
             .to_dict("records")
         )
